@@ -4,7 +4,29 @@
 // license that can be found in the LICENSE file or at
 // https://opensource.org/licenses/MIT.
 
-use onig::{Regex, RegexOptions, Syntax};
+use onig::{MatchParam, Regex, RegexOptions, SearchOptions, Syntax};
+
+use super::MatcherIO;
+
+/// `Regex::is_match` (the whole of `text` matches) for a matcher: where `is_match` panics -
+/// the regex engine gives up, e.g. after too much backtracking - the failure is reported,
+/// the exit status becomes non-zero and the text counts as not matched.
+pub fn is_match_or_report(regex: &Regex, text: &str, matcher_io: &mut MatcherIO) -> bool {
+    match regex.match_with_param(
+        text,
+        0,
+        SearchOptions::SEARCH_OPTION_NONE,
+        None,
+        MatchParam::default(),
+    ) {
+        Ok(r) => r == Some(text.len()),
+        Err(e) => {
+            eprintln!("find: cannot match {text:?} against the pattern: {e}");
+            matcher_io.set_exit_code(1);
+            false
+        }
+    }
+}
 
 /// Parse a string as a POSIX Basic Regular Expression.
 fn parse_bre(expr: &str, options: RegexOptions) -> Result<Regex, onig::Error> {
@@ -172,8 +194,16 @@ impl Pattern {
     }
 
     /// Test if this pattern matches a string.
+    #[allow(dead_code)] // the matchers use `matches_or_report`
     pub fn matches(&self, string: &str) -> bool {
         self.regex.as_ref().is_some_and(|r| r.is_match(string))
+    }
+
+    /// The same for a matcher, see `is_match_or_report`.
+    pub fn matches_or_report(&self, string: &str, matcher_io: &mut MatcherIO) -> bool {
+        self.regex
+            .as_ref()
+            .is_some_and(|r| is_match_or_report(r, string, matcher_io))
     }
 }
 
